@@ -15,6 +15,7 @@
   Hypotheses: `Inv h e` and `ActOk act e` exactly as in C02.
 -/
 import EnvVerif.Lemmas.ElideLemmas
+import EnvVerif.Model.Variants
 namespace EnvVerif
 open Env
 
@@ -238,6 +239,57 @@ theorem unelide_err_iff (ph e : Env) : unelide ph e = .err "InvalidDigest" ↔ p
   by_cases hd : ph.digest = e.digest
   · simp [hd]
   · simp [hd]
+
+
+/-! ### every door of the elision API is the set form
+
+`elide_*_array*` collect the digests of their targets, `elide_*_target*` are the array form with one
+element, the removing / revealing forms fix the flag (Model/Variants.lean mirrors `src/base/elide.rs`).
+So everything proved above for the set form holds for them with `T` = "is the digest of a listed
+target"; the correspondence check runs these doors on the implementation against these definitions. -/
+
+theorem elideArray_eq_set (ts : List Env) (rev : Bool) (e : Env) :
+    elideArray h A Z ts rev act e = elideSet h A Z (memD (ts.map Env.digest)) rev act e := rfl
+
+theorem elideTarget_eq_set (t : Env) (rev : Bool) (e : Env) :
+    elideTarget h A Z t rev act e = elideSet h A Z (fun d => t.digest == d) rev act e := by
+  simp only [elideTarget, elideArray, List.map_cons, List.map_nil]
+  congr 1
+  funext d
+  simp [memD]
+
+/-- the array form depends on its targets only through the set of their digests: order and repetition of
+the targets do not matter -/
+theorem elideArray_congr (ts ts' : List Env) (rev : Bool) (e : Env)
+    (hm : ∀ d, d ∈ ts.map Env.digest ↔ d ∈ ts'.map Env.digest) :
+    elideArray h A Z ts rev act e = elideArray h A Z ts' rev act e := by
+  simp only [elideArray]
+  congr 1
+  funext d
+  apply Bool.eq_iff_iff.mpr
+  simp only [memD, List.any_eq_true, beq_iff_eq]
+  constructor
+  · rintro ⟨x, hx, rfl⟩; exact ⟨x, (hm x).mp hx, rfl⟩
+  · rintro ⟨x, hx, rfl⟩; exact ⟨x, (hm x).mpr hx, rfl⟩
+
+/-- `removing_spec` through the array door: with `T` the digests of the listed targets -/
+theorem removing_spec_array {e r : Env} (ts : List Env) (hi : Inv h e) (ha : ActOk act e)
+    (hr : elideRemovingArray h A Z ts act e = .ok r) :
+    ∀ p y, e.at p = some y →
+      ((∀ q, q <+: p → ∀ z, e.at q = some z → memD (ts.map Env.digest) z.digest = false) →
+        ∃ x, r.at p = some x ∧ ShallowEq x y) ∧
+      (memD (ts.map Env.digest) y.digest = true →
+        (∀ q, q <+: p → q ≠ p → ∀ z, e.at q = some z → memD (ts.map Env.digest) z.digest = false) →
+        ∃ x, r.at p = some x ∧ IsPlaceholder A Z act y x ∧ ∀ s q, r.at (p ++ s :: q) = none) ∧
+      ((∃ q z, q <+: p ∧ q ≠ p ∧ e.at q = some z ∧ memD (ts.map Env.digest) z.digest = true) → r.at p = none) :=
+  removing_spec h A Z (memD (ts.map Env.digest)) act hi ha hr
+
+/-- a revealing call whose only target occurs nowhere reveals nothing: the root is replaced as a whole (the case
+a "nothing to do" shortcut in the single-target door would get wrong) -/
+theorem revealing_absent_target {e : Env} (t : Env) (hroot : (t.digest == e.digest) = false) :
+    elideRevealingTarget h A Z t act e = obscure A Z act e := by
+  simp only [elideRevealingTarget, elideTarget_eq_set]
+  cases e <;> simp_all [elideSet, Env.digest]
 
 end
 end EnvVerif
